@@ -27,12 +27,12 @@ Allowed(o) == o \in {"impl", "diagnostic"}
 
 \* classification of a panic payload (shared, as a table, with the harness; see lib/props/c18.py):
 \* deliberate, descriptive panics for unsupported item kinds count as diagnostics - the compiler shows their text
-Shapes == {"unit_struct", "tuple0", "tuple1", "tuple2", "named0", "named1", "named2", "enum_empty", "enum_unit",
+Shapes == {"unit_struct", "tuple0", "tuple1", "tuple1_unit", "tuple2", "named0", "named1", "named2", "enum_empty", "enum_unit",
            "enum_tuple", "enum_named", "enum_mixed", "union", "generic_struct", "generic_enum", "raw_names"}
 Positions == {"none", "item", "variant", "field"}
 Bodies == {"bare", "empty_parens", "ident", "two_idents", "unknown_ident", "int_literal", "string_literal",
            "eq_string", "nested_list", "nested_literal", "legacy_types_int", "legacy_fmt", "path", "not_wrapped",
-           "type_list", "ref_list", "duplicate_attr", "trailing_comma", "fmt_literal", "fmt_bad_literal",
+           "type_list", "unit_type", "tuple_type", "ref_list", "duplicate_attr", "trailing_comma", "fmt_literal", "fmt_bad_literal",
            "fmt_unicode", "fmt_huge_number", "fmt_args_deep", "keyword", "punct_soup", "group_soup"}
 
 \* a position only exists on shapes that have it
